@@ -833,6 +833,13 @@ ExitStatus Builder::Build(string* err) {
       }
 
       if (result.interrupted() || result.exit_status() == ExitInterrupted) {
+        // A command that itself ended with the interrupt status (it exited
+        // 130 or was killed by SIGINT/SIGTERM/SIGHUP) is no longer an active
+        // edge of the command runner: Cleanup() will not release the job
+        // slot it holds.
+        if (result.command_completed() && jobserver_.get())
+          jobserver_->Release(
+              std::move(result.GetCommandCompleted().edge->job_slot_));
         Cleanup();
         status_->BuildFinished();
         *err = "interrupted by user";
